@@ -972,3 +972,6 @@ CASES["C13"] += [
 CASES["C11"] += [
     ("reintroduce F-55 (expand_shape / collapse_shape views not followed)", "mutant", "snaxc/transforms/snax_allocate.py", "@revert:ab213d3~1", "", ["C11.lifetime"]),
 ]
+CASES["C13"] += [
+    ("reintroduce F-54 (no alias closure: only the op's own values are scanned)", "mutant", "snaxc/transforms/insert_sync_barrier.py", "@revert:03e688f~1", "", ["C13.alias-closure"]),
+]
